@@ -35,9 +35,12 @@ def plan(tier, seed):
                           dynamic=(k % 2 == 1),
                           starts=(4, 8, 16, 30)[(k // 2) % 4],
                           hashseed=k))
+    # instances beyond truth tables (12-70 variables), see vf/big.py
+    from vf import big
+    specs.extend(big.specs(tier, seed, 'C08'))
     meta = dict(
         rule=RULE,
-        require=['steps', 'quiescent_checks', 'handles_created',
+        require=['big_histories', 'steps', 'quiescent_checks', 'handles_created',
                  'handles_deleted', 'shutdown_checks', 'step_traverse',
                  'step_dup', 'step_fop', 'gc_calls',
                  'dynamic_reorderings'],
@@ -157,4 +160,7 @@ def _json(w):
 
 
 def run_shard(ctx, spec):
+    if spec['kind'] == 'big':
+        from vf import big
+        return ctx.guard('big', big.run, ctx, spec, case=spec)
     ctx.guard(spec['kind'], history, ctx, spec, case=spec)
